@@ -286,10 +286,10 @@ func (e *zzC06Env) builtin(name string, depth uint32) *Builtin {
 	})
 }
 
-func zzC06Setup() (*zzC06K, zzC06Construct, *zzC06Env) {
+func zzC06Setup(nkinds int) (*zzC06K, zzC06Construct, *zzC06Env) {
 	N := zzParam("maxlen", 2, 3)
 	con := zzC06Constructs[zzChoice("construct", len(zzC06Constructs))]
-	kind := zzChoice("K", 3)
+	kind := zzChoice("K", nkinds)
 	n := zzChoice("n", N+1)
 	k := zzC06MakeK(kind, n)
 	c0 := zzU32("c0")
@@ -312,7 +312,7 @@ func zzC06Post(k *zzC06K, con zzC06Construct, env *zzC06Env, thread *Thread) {
 
 //verif:unwind 200
 func zzH06_vmFaults() {
-	k, con, env := zzC06Setup()
+	k, con, env := zzC06Setup(3)
 	maxAt := zzParam("maxat", 3, 7)
 	env.at = zzChoice("at", maxAt+1) // == maxAt: beyond every run that short; larger runs simply see no fault
 	env.fault = zzFaultNone
@@ -357,7 +357,8 @@ func zzH06_vmFaults() {
 //
 //verif:unwind 400
 func zzH06_vmSteps() {
-	k, con, env := zzC06Setup()
+	// quick tier: list and dict (set iteration is the same hashtable code as dict)
+	k, con, env := zzC06Setup(zzParam("kinds", 2, 3))
 	thread := &Thread{Name: "t"}
 	lim := zzU64("steps")
 	zzAssume(zzAnd(lim >= 1, lim <= uint64(zzParam("maxsteps", 120, 400))))
